@@ -13,6 +13,12 @@
 //   extra probes (twins of the first ones): RL/RD = release/releasedir (ok | enosys | err:N), C = create of a new file
 //   (h | nh | err:N), CWB = writeback rewrite seen on the descriptor create produced, KC = kill-priv through
 //   create(O_TRUNC, FOPEN_IN_KILL_SUIDGID) on an existing setuid file, KS = kill-priv through setattr(SIZE|KILL_SUIDGID)
+//   handle-path probes (other entry points that consult the same switches; BOGUS = a handle no OPEN ever returned):
+//   FL = FLUSH with the handle OPEN returned (0 if none): ok | enosys | err:N      (no-open: ENOSYS)
+//   GH = GETATTR(Some(BOGUS)), FH = FSYNC(BOGUS), DH = READDIR(root, BOGUS): ok | err:N
+//        (a layer in handle mode refuses the unknown handle; in no-open / no-opendir mode it ignores the handle and
+//         works from the inode)
+//   WK = WRITE(1 byte, WRITE_KILL_PRIV) on a setuid file cleared the setuid bit: 1 | 0 | na
 // layer / switch bits:
 //   vfs : b0 no_open  b1 no_opendir  b2 no_writeback  b3 killpriv_v2     (VfsOptions; out_opts = "-" keeps the default)
 //         backend: PassthroughFs (do_import = false, cache=always, dax_file_size = 0) mounted at "/"
@@ -79,7 +85,7 @@ fn prep_dir(d: &Path) {
     std::fs::write(d.join("f"), b"abc").unwrap();
     std::fs::write(d.join("s"), b"abcdef").unwrap();
     std::fs::set_permissions(d.join("s"), std::fs::Permissions::from_mode(0o4755)).unwrap();
-    for n in ["s2", "s3"] {
+    for n in ["s2", "s3", "s4"] {
         std::fs::write(d.join(n), b"abcdef").unwrap();
         std::fs::set_permissions(d.join(n), std::fs::Permissions::from_mode(0o4755)).unwrap();
     }
@@ -126,6 +132,74 @@ fn suid_after_truncate(scratch: &Path, name: &str) -> String {
         }
     }
     "na".to_string()
+}
+const BOGUS: u64 = 0x7fff_fff0;
+const WRITE_KILL_PRIV: u32 = 4;
+fn fmt_plain(r: &io::Result<()>) -> String {
+    match r {
+        Ok(()) => "ok".to_string(),
+        Err(e) => format!("err:{}", errno_of(e)),
+    }
+}
+// setuid bit of `name` after a 1-byte write at offset 0 that put an 'X' there
+fn suid_after_write(scratch: &Path, name: &str) -> String {
+    for sub in ["", "upper", "lower"] {
+        let p = scratch.join(sub).join(name);
+        if let (Ok(m), Ok(b)) = (std::fs::metadata(&p), std::fs::read(&p)) {
+            if b.first() == Some(&b'X') {
+                return if m.permissions().mode() & 0o4000 == 0 { "1" } else { "0" }.to_string();
+            }
+        }
+    }
+    "na".to_string()
+}
+// other entry points that consult the no-open / no-opendir / kill-priv switches
+fn handle_probes<F>(fs: &F, scratch: &Path) -> String
+where
+    F: FileSystem<Inode = u64, Handle = u64>,
+{
+    let ctx = Context::default();
+    let root = 1u64;
+    let name_f = CString::new("f").unwrap();
+    let (fl, gh, fh) = match fs.lookup(&ctx, root, &name_f) {
+        Ok(e) => {
+            let o = fs.open(&ctx, e.inode, libc::O_RDONLY as u32, 0);
+            let h = if let Ok((Some(h), _, _)) = &o { *h } else { 0 };
+            let fl = fmt_unit(&fs.flush(&ctx, e.inode, h, 0));
+            if let Ok((Some(h), _, _)) = o {
+                let _ = fs.release(&ctx, e.inode, 0, h, false, false, None);
+            }
+            let gh = fmt_plain(&fs.getattr(&ctx, e.inode, Some(BOGUS)).map(|_| ()));
+            let fh = fmt_plain(&fs.fsync(&ctx, e.inode, false, BOGUS));
+            fs.forget(&ctx, e.inode, 1);
+            (fl, gh, fh)
+        }
+        Err(e) => (format!("err:{}", errno_of(&e)), "na".to_string(), "na".to_string()),
+    };
+    let dh = fmt_plain(&fs.readdir(&ctx, root, BOGUS, 4096, 0, &mut |_e| Ok(0)));
+    let name_s4 = CString::new("s4").unwrap();
+    let wk = match fs.lookup(&ctx, root, &name_s4) {
+        Ok(e) => {
+            let o = fs.open(&ctx, e.inode, libc::O_WRONLY as u32, 0);
+            let h = if let Ok((Some(h), _, _)) = &o { *h } else { 0 };
+            let src = scratch.join("wsrc");
+            std::fs::write(&src, b"X").unwrap();
+            let mut rd = std::fs::File::open(&src).unwrap();
+            let w = fs.write(&ctx, e.inode, h, &mut rd, 1, 0, None, false, libc::O_WRONLY as u32, WRITE_KILL_PRIV);
+            let v = match w {
+                Ok(1) => suid_after_write(scratch, "s4"),
+                _ => "na".to_string(),
+            };
+            if let Ok((Some(h), _, _)) = o {
+                let _ = fs.release(&ctx, e.inode, 0, h, false, false, None);
+            }
+            fs.forget(&ctx, e.inode, 1);
+            let _ = std::fs::remove_file(&src);
+            v
+        }
+        Err(_) => "na".to_string(),
+    };
+    format!("FL={} GH={} FH={} DH={} WK={}", fl, gh, fh, dh, wk)
 }
 fn fmt_unit(r: &io::Result<()>) -> String {
     match r {
@@ -299,9 +373,10 @@ where
         }
         Err(_) => "na".to_string(),
     };
+    let hp = handle_probes(fs, scratch);
     format!(
-        "O={} D={} WB={} KP={} DAX={} RL={} RD={} C={} CWB={} KC={} KS={}",
-        o_s, d_s, wb, kp, dax, rl, rd, c_s, cwb, kc, ks
+        "O={} D={} WB={} KP={} DAX={} RL={} RD={} C={} CWB={} KC={} KS={} {}",
+        o_s, d_s, wb, kp, dax, rl, rd, c_s, cwb, kc, ks, hp
     )
 }
 
@@ -309,7 +384,7 @@ fn reset_files(scratch: &Path, layer: &str) {
     // restore the setuid file for the next round of probes
     let dirs: Vec<PathBuf> = if layer == "ovl" { vec![scratch.join("upper"), scratch.join("lower")] } else { vec![scratch.to_path_buf()] };
     for d in dirs {
-        for n in ["s", "s2", "s3"] {
+        for n in ["s", "s2", "s3", "s4"] {
             let p = d.join(n);
             if p.exists() {
                 std::fs::write(&p, b"abcdef").unwrap();
@@ -540,6 +615,41 @@ impl<'a> FileSystem for VfsU64<'a> {
     }
     fn opendir(&self, ctx: &Context, inode: u64, flags: u32) -> io::Result<(Option<u64>, fuse_backend_rs::abi::fuse_abi::OpenOptions)> {
         self.0.opendir(ctx, inode.into(), flags).map(|(h, o)| (h.map(Into::into), o))
+    }
+    fn flush(&self, ctx: &Context, inode: u64, handle: u64, lock_owner: u64) -> io::Result<()> {
+        self.0.flush(ctx, inode.into(), handle.into(), lock_owner)
+    }
+    fn getattr(&self, ctx: &Context, inode: u64, handle: Option<u64>) -> io::Result<(stat64, std::time::Duration)> {
+        self.0.getattr(ctx, inode.into(), handle.map(Into::into))
+    }
+    fn fsync(&self, ctx: &Context, inode: u64, datasync: bool, handle: u64) -> io::Result<()> {
+        self.0.fsync(ctx, inode.into(), datasync, handle.into())
+    }
+    fn readdir(
+        &self,
+        ctx: &Context,
+        inode: u64,
+        handle: u64,
+        size: u32,
+        offset: u64,
+        add_entry: &mut dyn FnMut(fuse_backend_rs::api::filesystem::DirEntry) -> io::Result<usize>,
+    ) -> io::Result<()> {
+        self.0.readdir(ctx, inode.into(), handle.into(), size, offset, add_entry)
+    }
+    fn write(
+        &self,
+        ctx: &Context,
+        inode: u64,
+        handle: u64,
+        r: &mut dyn fuse_backend_rs::api::filesystem::ZeroCopyReader,
+        size: u32,
+        offset: u64,
+        lock_owner: Option<u64>,
+        delayed_write: bool,
+        flags: u32,
+        fuse_flags: u32,
+    ) -> io::Result<usize> {
+        self.0.write(ctx, inode.into(), handle.into(), r, size, offset, lock_owner, delayed_write, flags, fuse_flags)
     }
     fn releasedir(&self, ctx: &Context, inode: u64, flags: u32, handle: u64) -> io::Result<()> {
         self.0.releasedir(ctx, inode.into(), flags, handle.into())
